@@ -192,7 +192,8 @@ def shard_pipeline(sh):
     seen = {}
     for b in range(6 if sh.tier == 'quick' else 30):
         n = rng.choice([50, 400, 3000])
-        df = pd.DataFrame({'a': ['v%d' % v for v in nprng.integers(0, 40, n)], 'b': ['id%d' % v for v in nprng.integers(0, 100000, n)], 'c': [rng.choice(['', 'x', 'y']) for _ in range(n)]})
+        df = pd.DataFrame({'a': ['v%d' % v for v in nprng.integers(0, 40, n)], 'b': ['id%d' % v for v in nprng.integers(0, 100000, n)], 'c': [rng.choice(['', 'x', 'y']) for _ in range(n)],
+                           'd': ['v%d' % v for v in nprng.integers(0, 60, n)], 'e': [rng.choice(['x', 'y', 'v1', 'id5']) for _ in range(n)]})   # d, e share values with a, b, c
         cr.compute_cardinalities(df, pipe.NullPbar(), 30000)
         for c in df.columns:
             seen.setdefault(c, set()).update(v for v in df[c] if v)
